@@ -2,6 +2,7 @@
 # Runs every registered check (quick tier by default) and reports exit codes. Usage: ./run_all.sh [quick|thorough] [IDs...]
 cd "$(dirname "$0")"
 TIER=${1:-quick}; shift 2>/dev/null
+mkdir -p work evidence replays
 IDS=${*:-$(python3 -c "import json; print(' '.join(c['property_id'] for c in json.load(open('MANIFEST.json'))['checks']))")}
 for id in $IDS; do
   start=$(date +%s)
